@@ -14,7 +14,7 @@
    [release M m p] = the version M.m.p without pre-release and metadata. *)
 From Coq Require Import List String Bool NArith Sorting.Permutation Sorting.Sorted.
 From Helm Require Import Misc.Semver Misc.SemverProofs Misc.Index Misc.IndexProofs.
-From Helm Require Import Misc.Constraint Misc.ConstraintProofs.
+From Helm Require Import Misc.Constraint Misc.ConstraintProofs Misc.Tags Misc.TagsProofs.
 From Helm Require Gen.C18Semver.
 Import ListNotations.
 Local Open Scope string_scope.
@@ -506,3 +506,134 @@ Example C18_hyphen_range_quirk :
   cvalid "1|2" = false /\ cvalid "==1.2.3" = false /\ cvalid "" = false /\ cvalid "1x" = false.
 Proof. exact hyphen_range_quirk. Qed.
 Print Assumptions C18_hyphen_range_quirk.
+
+(* ======================================================================================
+   OCI tag lists: Client.Tags (all pages collected, one sort) + the tag match on top of it
+   (Misc/Tags.v).  [strict_parse] = semver.StrictNewVersion, [sstring] = Version.String(),
+   [scompare] = Version.Compare on strict versions (on keys), [go_scompare] = the same as the
+   library writes it, [client_tags sort pages] = Client.Tags on a listing served in [pages],
+   [all_tags pages] = the semver tags of the concatenation of all pages as Tags renders them,
+   [sregular s] = s has no empty pre-release / metadata identifier.
+   ====================================================================================== *)
+
+(* what tag matching (NewVersion) makes of a tag rendered by Client.Tags: the same version
+   when the strict version has no empty identifier, a parse error otherwise *)
+Theorem C18_strict_render_roundtrip :
+  forall t s,
+    strict_parse t = Some s ->
+    parse_version (sstring s) = if sregular s then Some (to_version s) else None.
+Proof. exact strict_render_parse. Qed.
+Print Assumptions C18_strict_render_roundtrip.
+
+(* Compare on strict versions (empty identifiers included) is a total preorder: sort.Sort's
+   Less is a strict weak order on every tag list *)
+Theorem C18_strict_compare_total_preorder :
+  (forall a, scompare a a = Eq) /\
+  (forall a b c, scompare a b <> Gt -> scompare b c <> Gt -> scompare a c <> Gt) /\
+  (forall a b, scompare a b <> Gt \/ scompare b a <> Gt) /\
+  (forall a b, scompare b a = CompOpp (scompare a b)) /\
+  (forall a b, scompare a b = Eq <-> skey a = skey b).
+Proof. exact scompare_total_preorder. Qed.
+Print Assumptions C18_strict_compare_total_preorder.
+
+(* the key order is Version.Compare as the library writes it (comparePrerelease's padded loop,
+   comparePrePart), on everything StrictNewVersion accepts *)
+Theorem C18_strict_compare_is_go_compare :
+  forall ta tb a b,
+    strict_parse ta = Some a -> strict_parse tb = Some b -> go_scompare a b = scompare a b.
+Proof. exact go_scompare_key. Qed.
+Print Assumptions C18_strict_compare_is_go_compare.
+
+(* ... and it is the precedence of Semver.v on the versions NewVersion reads back *)
+Theorem C18_strict_compare_agrees :
+  forall a b, sregular a = true -> sregular b = true ->
+              scompare a b = vcompare (to_version a) (to_version b).
+Proof. exact sregular_compare. Qed.
+Print Assumptions C18_strict_compare_agrees.
+
+Example C18_ssort_hypotheses_satisfiable :
+  (forall l, Permutation l (sisort l)) /\
+  (forall l, StronglySorted (fun a b => sless a b = false) (sisort l)).
+Proof. exact ssort_hypotheses_satisfiable. Qed.
+Print Assumptions C18_ssort_hypotheses_satisfiable.
+
+(* Composition, for every split into pages: Client.Tags followed by
+   GetTagMatchingVersionOrConstraint returns the identical string if some page lists it, else
+   a highest tag over the concatenation of ALL pages that satisfies the (concrete) constraint
+   / a highest stable one for "", else an error.  [sort] = sort.Sort: any function returning a
+   permutation without Less-inversion. *)
+Theorem C18_oci_tags_best :
+  forall sort : list sversion -> list sversion,
+    (forall l, Permutation l (sort l)) ->
+    (forall l, StronglySorted (fun a b => sless a b = false) (sort l)) ->
+    forall pages ver,
+      Permutation (client_tags sort pages) (all_tags pages) /\
+      (ver = "" ->
+         (exists t, tag_match cvalid sat (client_tags sort pages) ver = TOk t /\
+                    best_tag is_stable (all_tags pages) t) \/
+         (tag_match cvalid sat (client_tags sort pages) ver = TErrNotFound /\
+          none_tag is_stable (all_tags pages))) /\
+      (ver <> "" -> In ver (all_tags pages) ->
+         tag_match cvalid sat (client_tags sort pages) ver = TOk ver) /\
+      (ver <> "" -> ~ In ver (all_tags pages) ->
+         match new_constraint ver with
+         | None => tag_match cvalid sat (client_tags sort pages) ver = TErrConstraint
+         | Some cs =>
+             (exists t, tag_match cvalid sat (client_tags sort pages) ver = TOk t /\
+                        best_tag (constraints_check cs) (all_tags pages) t) \/
+             (tag_match cvalid sat (client_tags sort pages) ver = TErrNotFound /\
+              none_tag (constraints_check cs) (all_tags pages))
+         end).
+Proof. exact oci_tag_match_thm. Qed.
+Print Assumptions C18_oci_tags_best.
+
+(* ValidateReference (reference without tag and digest): an explicit version is kept as it is;
+   otherwise no semver tag on any page is an error, else the tag match above *)
+Theorem C18_oci_validate_reference :
+  forall sort : list sversion -> list sversion,
+    (forall l, Permutation l (sort l)) ->
+    forall pages ver,
+      validate_reference cvalid sat sort pages ver =
+      if is_valid_version ver then VROk ver
+      else match all_tags pages with
+           | [] => VRErrNoTags
+           | _ => match tag_match cvalid sat (client_tags sort pages) ver with
+                  | TOk t => VROk t
+                  | TErrConstraint => VRErrConstraint
+                  | TErrNotFound => VRErrNotFound
+                  end
+           end.
+Proof. exact validate_reference_thm. Qed.
+Print Assumptions C18_oci_validate_reference.
+
+(* the answer does not depend on how the tags are split into pages, on the order inside or
+   between pages, or on which (correct) sort is used: two listings with the same tags give
+   the same error, the same tag, or two tags of one precedence class *)
+Theorem C18_oci_page_invariant :
+  forall sort sort' : list sversion -> list sversion,
+    (forall l, Permutation l (sort l)) ->
+    (forall l, StronglySorted (fun a b => sless a b = false) (sort l)) ->
+    (forall l, Permutation l (sort' l)) ->
+    (forall l, StronglySorted (fun a b => sless a b = false) (sort' l)) ->
+    forall pages pages',
+      Permutation (List.concat pages) (List.concat pages') ->
+      forall ver,
+        tag_equiv (tag_match cvalid sat (client_tags sort pages) ver)
+                  (tag_match cvalid sat (client_tags sort' pages') ver).
+Proof. exact oci_page_invariant_thm. Qed.
+Print Assumptions C18_oci_page_invariant.
+
+(* the listing of seeded change C18-7 (three pages in the registry's lexical order) *)
+Example C18_oci_example :
+  client_tags sisort ex_pages =
+    ["2.1.0+b1"; "2.0.0"; "1.10.0"; "1.3.0-rc.1"; "1.2.3-a..b"; "1.2.0"; "1.1.0"; "1.0.0"; "0.9.0"] /\
+  validate_reference cvalid sat sisort ex_pages "" = VROk "2.1.0+b1" /\
+  validate_reference cvalid sat sisort ex_pages "^1.0.0" = VROk "1.10.0" /\
+  validate_reference cvalid sat sisort ex_pages ">=1.0.0 <2.0.0-0" = VROk "1.10.0" /\
+  validate_reference cvalid sat sisort ex_pages "1.2.3-a..b" = VROk "1.2.3-a..b" /\
+  validate_reference cvalid sat sisort ex_pages ">=1.2.1-0 <1.3.0-0" = VRErrNotFound /\
+  validate_reference cvalid sat sisort ex_pages ">=3" = VRErrNotFound /\
+  validate_reference cvalid sat sisort ex_pages "7.7.7" = VROk "7.7.7" /\
+  validate_reference cvalid sat sisort [["latest"]; []] "" = VRErrNoTags.
+Proof. exact example_oci. Qed.
+Print Assumptions C18_oci_example.
